@@ -549,39 +549,51 @@ func runC17(p *an.Prog, r *an.Run, tier string) {
 					}
 				}
 			}
-			// (b) Buffered() remainder stored into a receiver field that feeds the next decoder
+			// (b) Buffered() remainder stored (possibly copied) into a receiver field that feeds the next decoder
 			if !kept {
+				var bufCall ssa.CallInstruction
 				for _, bc := range an.Calls(fn, false) {
-					f := an.CallObj(bc)
-					if f == nil || f.Name() != "Buffered" || bc.Common().Args[0] != dec {
-						continue
+					if f := an.CallObj(bc); f != nil && f.Name() == "Buffered" && bc.Common().Args[0] == dec {
+						bufCall = bc
 					}
-					for _, ref := range *bc.Value().Referrers() {
-						st, ok := ref.(*ssa.Store)
+				}
+				if bufCall == nil {
+					why = append(why, "the decoder's Buffered() remainder is never taken")
+				} else {
+					an.AllInstrs(fn, func(in ssa.Instruction) {
+						st, ok := in.(*ssa.Store)
 						if !ok {
-							continue
+							return
 						}
 						root, _ := an.RootPath(st.Addr)
 						fv := an.FieldOf(st.Addr)
-						if root != ssa.Value(recv) || fv == nil {
-							continue
+						if root != ssa.Value(recv) || fv == nil || !hasReadMethod(fv.Type()) {
+							return
+						}
+						ds := p.Derives(0, st.Val)
+						if !ds.HasValue(bufCall.Value()) {
+							return
 						}
 						// the reader given to NewDecoder must read that field first
-						if d.HasFieldNamed("", fv.Name()) {
-							// and the store must happen on every path after Decode
-							kept = true
-							for _, dc := range an.Calls(fn, false) {
-								if g := an.CallObj(dc); g != nil && g.Name() == "Decode" && dc.Common().Args[0] == dec {
-									if in := an.PathAvoiding(fn, dc.(ssa.Instruction), func(x ssa.Instruction) bool { return x == ssa.Instruction(st) }, an.IsReturn, nil); in != nil {
-										kept = false
-										why = append(why, "a path returns at "+p.Pos(in.Pos())+" without saving the decoder's buffered remainder")
-									}
+						if !d.HasFieldNamed("", fv.Name()) {
+							why = append(why, "the buffered remainder is saved but the next decoder does not read it")
+							return
+						}
+						// what the decoder did not get to of the earlier remainder must be kept as well
+						if !p.DerivesStop([]ssa.Value{bufCall.Value()}, 0, st.Val).HasFieldNamed("", fv.Name()) {
+							why = append(why, "the saved remainder replaces the earlier one without keeping its unread tail (several small messages arriving behind a large one are lost)")
+							return
+						}
+						kept = true
+						for _, dc := range an.Calls(fn, false) {
+							if g := an.CallObj(dc); g != nil && g.Name() == "Decode" && dc.Common().Args[0] == dec {
+								if in := an.PathAvoiding(fn, dc.(ssa.Instruction), func(x ssa.Instruction) bool { return x == ssa.Instruction(st) }, an.IsReturn, nil); in != nil {
+									kept = false
+									why = append(why, "a path returns at "+p.Pos(in.Pos())+" without saving the decoder's buffered remainder")
 								}
 							}
-						} else {
-							why = append(why, "the buffered remainder is saved but the next decoder does not read it")
 						}
-					}
+					})
 				}
 			}
 			r.Check(kept, "no-readahead-loss", name, c.Pos(), "the decoder's read-ahead survives the call", "%s builds a json.Decoder on the connection's stream for one message and drops it: whatever it read past that message (a second message that arrived in the same read) is lost; %s", name, strings.Join(why, "; "))
